@@ -136,6 +136,7 @@ pub struct Report {
     pub samples: Vec<Value>,
     pub notes: Vec<String>,
     distinct: HashSet<u64>,
+    named: BTreeMap<String, HashSet<u64>>,
     sample_cap: usize,
 }
 
@@ -153,6 +154,7 @@ impl Report {
             samples: vec![],
             notes: vec![],
             distinct: HashSet::new(),
+            named: BTreeMap::new(),
             sample_cap: 6,
         }
     }
@@ -190,6 +192,17 @@ impl Report {
         let mut h = std::collections::hash_map::DefaultHasher::new();
         key.hash(&mut h);
         self.distinct.insert(h.finish());
+    }
+    /// Registers a key in a named set whose size is reported as "distinct <name> observed"
+    /// (completion orders, output hashes, direction sequences, ...).
+    pub fn distinct_in<K: std::hash::Hash>(&mut self, name: &str, key: K) {
+        use std::hash::Hasher;
+        let mut h = std::collections::hash_map::DefaultHasher::new();
+        key.hash(&mut h);
+        let set = self.named.entry(name.to_string()).or_default();
+        if set.len() < 200_000 {
+            set.insert(h.finish());
+        }
     }
     pub fn sample(&mut self, v: Value) {
         if self.samples.len() < self.sample_cap {
@@ -238,6 +251,15 @@ impl Report {
         m.insert(
             "distinct_hashes".into(),
             json!(d.iter().map(|x| format!("{x:016x}")).collect::<Vec<_>>()),
+        );
+        m.insert(
+            "distinct_sets".into(),
+            Value::Object(
+                self.named
+                    .iter()
+                    .map(|(k, v)| (k.clone(), json!(v.iter().map(|x| format!("{x:016x}")).collect::<Vec<_>>())))
+                    .collect(),
+            ),
         );
         Value::Object(m)
     }
